@@ -122,3 +122,68 @@ func VerifC18Errors(n int) {
 		}
 	}
 }
+
+// verifByteStage: a stage that writes byte lines and/or reads byte input.
+type verifByteStage struct {
+	lines   int    // writes "0\n", "1\n", ...
+	readAll bool   // reads its byte input to the end
+	readOne bool   // reads one chunk and stops
+	got     string // bytes read
+	wrErr   error
+	wrote   int
+}
+
+func (st *verifByteStage) exec(fm *Frame) Exception {
+	if st.readAll || st.readOne {
+		in := fm.InputFile()
+		buf := make([]byte, 4)
+		for {
+			n, err := in.Read(buf)
+			st.got += string(buf[:n])
+			if err != nil || st.readOne {
+				break
+			}
+		}
+	}
+	out := fm.ByteOutput()
+	for k := 0; k < st.lines; k++ {
+		if _, err := out.WriteString(string(rune('0'+k)) + "\n"); err != nil {
+			st.wrErr = err
+			return &exception{err, nil}
+		}
+		st.wrote++
+	}
+	return nil
+}
+
+// VerifC18Bytes: producer | consumer over the byte channel: the producer
+// writes np lines; the consumer reads to the end (mode 0), reads one chunk and
+// stops (mode 1), or reads nothing (mode 2). Every schedule within the
+// preemption bound: the bytes read are a prefix of the bytes written, all of
+// them when reading to the end; an early-exiting reader never makes the
+// writer hang and its broken-pipe error is not the pipeline's error.
+func VerifC18Bytes(np, mode int) {
+	prod := &verifByteStage{lines: np}
+	cons := &verifByteStage{readAll: mode == 0, readOne: mode == 1}
+	fm := verifCtxFrame()
+	fm.ports[1] = &Port{Chan: make(chan any, 8), sendStop: make(chan struct{}), sendError: new(error)}
+	op := &pipelineOp{forms: []*formOp{
+		{body: formBody{specialOp: prod}},
+		{body: formBody{specialOp: cons}},
+	}}
+	exc := op.exec(fm)
+	all := ""
+	for k := 0; k < np; k++ {
+		all += string(rune('0'+k)) + "\n"
+	}
+	vrt.Assert(len(cons.got) <= len(all) && all[:len(cons.got)] == cons.got, "bytes arrive exactly once and in order")
+	if mode == 0 {
+		vrt.Assert(cons.got == all, "a reader that reads to the end receives every byte")
+		vrt.Assert(prod.wrErr == nil, "a writer whose reader reads everything sees no error")
+	}
+	if prod.wrErr != nil {
+		_, gone := prod.wrErr.(errs.ReaderGone)
+		vrt.Assert(gone, "a write can only fail because the reader is gone")
+	}
+	vrt.Assert(exc == nil, "an early-exiting reader is not an error of the pipeline")
+}
